@@ -157,6 +157,37 @@ func init() {
 			}
 			return rv.I
 		},
+		"(reflect.Value).IsZero": func(x *Exec, fr *frame, fn *ssa.Function, a []Value) Value {
+			rv, ok := a[0].(ReflectV)
+			if !ok || rv.I.T == nil {
+				x.tpanic("reflect: call of reflect.Value.IsZero on zero Value")
+			}
+			ts := x.ts
+			switch v := rv.I.V.(type) {
+			case *Term:
+				switch v.S.K {
+				case KBool:
+					return ts.Not(v)
+				case KFP:
+					// +0 only (the bit pattern is compared); -0 is not the zero value for IsZero
+					return ts.Eq(v, ts.FP(0))
+				default:
+					return ts.Eq(v, ts.BV(v.S.W, 0))
+				}
+			case Str:
+				return ts.Bool(len(v.B) == 0)
+			case *MapObj:
+				return ts.Bool(v == nil)
+			case Slice:
+				return ts.Bool(v.A == nil)
+			case Ptr:
+				return ts.Bool(v.C == nil)
+			case Iface:
+				return ts.Bool(v.T == nil)
+			}
+			x.unsupported("reflect.Value.IsZero on this kind of value")
+			return nil
+		},
 		"(reflect.Value).IsValid": func(x *Exec, fr *frame, fn *ssa.Function, a []Value) Value {
 			rv, ok := a[0].(ReflectV)
 			return x.ts.Bool(ok && rv.I.T != nil)
